@@ -123,6 +123,13 @@ def work(job):
         for o in obls:
             if o.cls == "C":
                 r, _m = smt.check_sat(o.premises, timeout_ms=min(timeout_ms, 5000))
+                if r == "unknown":
+                    # a model under extra restrictions (small sizes) is still a model
+                    for bound in (1, 3):
+                        r, _m = smt.check_sat(list(o.premises) + small_scope(o.params, bound), timeout_ms=min(timeout_ms, 5000))
+                        if r == "sat":
+                            break
+                        r = "unknown"
                 st = {"sat": "proved", "unsat": "refuted", "unknown": "unknown"}[r]
                 res.append(dict(name=o.name, kind=o.kind, cls=o.cls, status=st, solver="z3", time_s=0.0,
                                 line=o.line, case=o.case, label=o.label, vacuity=True))
